@@ -50,9 +50,9 @@ theorem next_attempt_after_stream_end_targets_configured_host (cfg : Cfg) (scrip
   refine ⟨?_, ?_, ?_, ?_⟩
   · simp [step, disconnectFromHost, socketClose, hc, onSocketDisconnected, hred, closeSession]
   · simp [step, disconnectFromHost, socketClose, hc, onSocketDisconnected, hred, closeSession]
-  · simp [step, disconnectFromHost, socketClose, hc, onSocketDisconnected, hred, closeSession, connectTarget]
+  · simp [step, disconnectFromHost, socketClose, hc, onSocketDisconnected, hred, closeSession, connectTarget, connectTo, socketGone]
   · intro hh hw
-    simp [step, recv, hh, hw, disconnectFromHost, socketClose, hc, onSocketDisconnected, hred, closeSession, connectTarget]
+    simp [step, recv, hh, hw, disconnectFromHost, socketClose, hc, onSocketDisconnected, hred, closeSession, connectTarget, connectTo, socketGone]
 
 /-- SASL PLAIN + bind + `<enable/>` answered by `<enabled resume='true'/>`, with (`loc`) or without a `location` -/
 def sessionSm (loc : Bool) : List Ev :=
@@ -78,7 +78,7 @@ theorem connect_target_spec (s : St) (hd : s.conn = .disconnected) :
     (s.canResume = false → (step s .connectToServer).1.target = .configured) ∧
     (s.canResume = true → s.resumeLoc = true → (step s .connectToServer).1.target = .location) ∧
     (s.resumeLoc = false → (step s .connectToServer).1.target = .configured) := by
-  refine ⟨?_, ?_, ?_⟩ <;> intros <;> simp_all [step, connectTarget]
+  refine ⟨?_, ?_, ?_⟩ <;> intros <;> simp_all [step, connectTarget, connectTo, socketGone]
 
 /-! ### after the cut -/
 
@@ -92,7 +92,7 @@ theorem cut_leaves_disconnected (cfg : Cfg) (script : List Ev)
     nD r.2 = 1 ∧ nC r.2 = 0 := by
   intro r
   have hred : (run (init cfg) script).1.redirect = false := run_red script (init cfg) rfl
-  simp [r, step, hc, onSocketDisconnected, hred, closeSession, isConnected]
+  simp [r, step, socketGone, hc, onSocketDisconnected, hred, closeSession, isConnected]
 
 /-- **Outstanding requests are completed or retained, and retained only when resumable.**  At the cut, if the stream is not
 resumable every outstanding request of the application is finished with an error (one `iqDone` per request, before the
@@ -107,9 +107,9 @@ theorem requests_completed_or_retained (cfg : Cfg) (script : List Ev)
   have hred : s.redirect = false := run_red script (init cfg) rfl
   constructor
   · intro h
-    simp [r, step, hc, onSocketDisconnected, hred, closeSession, h, s]
+    simp [r, step, socketGone, hc, onSocketDisconnected, hred, closeSession, h, s]
   · intro h
-    simp [r, step, hc, onSocketDisconnected, hred, closeSession, h, s, iqDones]
+    simp [r, step, socketGone, hc, onSocketDisconnected, hred, closeSession, h, s, iqDones]
 
 /-- …and a retained request does not outlive the next session unless that session is a resumption: opening a session that
 was not resumed finishes every outstanding request. -/
@@ -201,7 +201,7 @@ example :
 server running SASL PLAIN and classic binding lead to `connected`, `isConnected()`, authenticated, negotiation listener
 idle — for every configuration that may use SASL PLAIN and does not require TLS. -/
 theorem next_attempt_succeeds_sasl_bind (cfg : Cfg) (script : List Ev)
-    (hc : (run (init cfg) script).1.conn = .connected)
+    (hc : (run (init cfg) script).1.conn = .connected) (hreg : cfg.registerOnConnect = false)
     (hsasl : cfg.useSasl = true) (hplain : cfg.plainOk = true) (htls : cfg.tls ≠ .required) :
     .sig .connected ∈ (run (run (init cfg) script).1 (cutAndReconnect ++ flowSaslBind)).2 ∧
     isConnected (run (run (init cfg) script).1 (cutAndReconnect ++ flowSaslBind)).1 = true ∧
@@ -210,7 +210,7 @@ theorem next_attempt_succeeds_sasl_bind (cfg : Cfg) (script : List Ev)
   have hred : (run (init cfg) script).1.redirect = false := run_red script (init cfg) rfl
   have hcfg : (run (init cfg) script).1.cfg = cfg := run_cfg script (init cfg)
   have h0 : Ph cfg false .idle false false (run (run (init cfg) script).1 cutAndReconnect).1 := by
-    have := ph_after_cut _ hc hred
+    have := ph_after_cut _ hc hred (by rw [hcfg]; exact hreg)
     rwa [hcfg] at this
   have a := flowSaslBind_connects h0 hsasl hplain (Or.inr htls)
   rw [run_append]
@@ -219,7 +219,7 @@ theorem next_attempt_succeeds_sasl_bind (cfg : Cfg) (script : List Ev)
 
 /-- **The next attempt succeeds (STARTTLS, then SASL + bind)** — also with TLS required, whenever TLS is available locally. -/
 theorem next_attempt_succeeds_tls_sasl_bind (cfg : Cfg) (script : List Ev)
-    (hc : (run (init cfg) script).1.conn = .connected)
+    (hc : (run (init cfg) script).1.conn = .connected) (hreg : cfg.registerOnConnect = false)
     (hl : cfg.localTls = true) (ht : cfg.tls ≠ .disabled) (hsasl : cfg.useSasl = true) (hplain : cfg.plainOk = true) :
     .sig .connected ∈ (run (run (init cfg) script).1 (cutAndReconnect ++ flowTlsSaslBind)).2 ∧
     isConnected (run (run (init cfg) script).1 (cutAndReconnect ++ flowTlsSaslBind)).1 = true ∧
@@ -228,7 +228,7 @@ theorem next_attempt_succeeds_tls_sasl_bind (cfg : Cfg) (script : List Ev)
   have hred : (run (init cfg) script).1.redirect = false := run_red script (init cfg) rfl
   have hcfg : (run (init cfg) script).1.cfg = cfg := run_cfg script (init cfg)
   have h0 : Ph cfg false .idle false false (run (run (init cfg) script).1 cutAndReconnect).1 := by
-    have := ph_after_cut _ hc hred
+    have := ph_after_cut _ hc hred (by rw [hcfg]; exact hreg)
     rwa [hcfg] at this
   have a := flowTlsSaslBind_connects h0 hl ht hsasl hplain
   rw [run_append]
@@ -237,7 +237,7 @@ theorem next_attempt_succeeds_tls_sasl_bind (cfg : Cfg) (script : List Ev)
 
 /-- **The next attempt succeeds (SASL2 + bind2 with inline stream management).** -/
 theorem next_attempt_succeeds_sasl2_bind2 (cfg : Cfg) (script : List Ev)
-    (hc : (run (init cfg) script).1.conn = .connected)
+    (hc : (run (init cfg) script).1.conn = .connected) (hreg : cfg.registerOnConnect = false)
     (hs2 : cfg.useSasl2 = true) (hplain : cfg.plainOk = true) (htls : cfg.tls ≠ .required) :
     .sig .connected ∈ (run (run (init cfg) script).1 (cutAndReconnect ++ flowSasl2Bind2)).2 ∧
     isConnected (run (run (init cfg) script).1 (cutAndReconnect ++ flowSasl2Bind2)).1 = true ∧
@@ -245,7 +245,7 @@ theorem next_attempt_succeeds_sasl2_bind2 (cfg : Cfg) (script : List Ev)
   have hred : (run (init cfg) script).1.redirect = false := run_red script (init cfg) rfl
   have hcfg : (run (init cfg) script).1.cfg = cfg := run_cfg script (init cfg)
   have h0 : Ph cfg false .idle false false (run (run (init cfg) script).1 cutAndReconnect).1 := by
-    have := ph_after_cut _ hc hred
+    have := ph_after_cut _ hc hred (by rw [hcfg]; exact hreg)
     rwa [hcfg] at this
   have a := flowSasl2Bind2_connects h0 hs2 hplain (Or.inr htls)
   rw [run_append]
@@ -256,7 +256,7 @@ theorem next_attempt_succeeds_sasl2_bind2 (cfg : Cfg) (script : List Ev)
 legacy authentication and does not require TLS; nothing is reported before the last element, which reports `connected`
 exactly once. -/
 theorem next_attempt_succeeds_legacy (cfg : Cfg) (script : List Ev)
-    (hc : (run (init cfg) script).1.conn = .connected)
+    (hc : (run (init cfg) script).1.conn = .connected) (hreg : cfg.registerOnConnect = false)
     (hns : cfg.useNonSasl = true) (htls : cfg.tls ≠ .required) :
     .sig .connected ∈ (run (run (init cfg) script).1 (cutAndReconnect ++ flowLegacy)).2 ∧
     isConnected (run (run (init cfg) script).1 (cutAndReconnect ++ flowLegacy)).1 = true ∧
@@ -265,7 +265,7 @@ theorem next_attempt_succeeds_legacy (cfg : Cfg) (script : List Ev)
   have hred : (run (init cfg) script).1.redirect = false := run_red script (init cfg) rfl
   have hcfg : (run (init cfg) script).1.cfg = cfg := run_cfg script (init cfg)
   have h0 : Ph cfg false .idle false false (run (run (init cfg) script).1 cutAndReconnect).1 := by
-    have := ph_after_cut _ hc hred
+    have := ph_after_cut _ hc hred (by rw [hcfg]; exact hreg)
     rwa [hcfg] at this
   have hv : (run (run (init cfg) script).1 cutAndReconnect).1.streamVersionSet = false := by
     rw [cut_reconnect_state _ hc hred]
@@ -286,7 +286,7 @@ any point), cut + reconnect + the flow: `connected` is reported exactly once, by
 reported and `isConnected()` is false at every cut point `k` of the flow; no `disconnected`; the client ends connected and
 authenticated. -/
 theorem next_attempt_succeeds (fl : Flow) (cfg : Cfg) (script : List Ev)
-    (hc : (run (init cfg) script).1.conn = .connected)
+    (hc : (run (init cfg) script).1.conn = .connected) (hreg : cfg.registerOnConnect = false)
     (happ : fl.applicable cfg (run (init cfg) script).1.canResume) :
     nC (run (run (run (init cfg) script).1 cutAndReconnect).1 fl.script).2 = 1 ∧
     nD (run (run (run (init cfg) script).1 cutAndReconnect).1 fl.script).2 = 0 ∧
@@ -298,21 +298,22 @@ theorem next_attempt_succeeds (fl : Flow) (cfg : Cfg) (script : List Ev)
       isConnected (run (run (run (init cfg) script).1 cutAndReconnect).1 (fl.script.take k)).1 = false) := by
   have hred : (run (init cfg) script).1.redirect = false := run_red script (init cfg) rfl
   have hcfg : (run (init cfg) script).1.cfg = cfg := run_cfg script (init cfg)
-  have st := start_after_cut _ hc hred
+  have st := start_after_cut _ hc hred (by rw [hcfg]; exact hreg)
   rw [hcfg] at st
   exact opensAtEnd_spec _ _ st.ph.sess (flow_opens fl st happ)
 
 /-- the same for the very first attempt of a fresh client -/
-theorem first_attempt_succeeds (fl : Flow) (cfg : Cfg) (happ : fl.applicable cfg false) :
+theorem first_attempt_succeeds (fl : Flow) (cfg : Cfg) (happ : fl.applicable cfg false)
+    (hreg : cfg.registerOnConnect = false) :
     nC (run (init cfg) ([.connectToServer, .socketConnected] ++ fl.script)).2 = 1 ∧
     isConnected (run (init cfg) ([.connectToServer, .socketConnected] ++ fl.script)).1 = true ∧
     (run (init cfg) ([.connectToServer, .socketConnected] ++ fl.script)).1.authenticated = true := by
   have st : Start cfg false (run (init cfg) [.connectToServer, .socketConnected]).1 := by
-    refine ⟨⟨?_, ?_, ?_, ?_, ?_, ?_, ?_, ?_⟩, ?_, ?_, ?_, ?_⟩ <;> simp [run, step, init, handleStart]
+    refine ⟨⟨⟨?_, hreg⟩, ?_, ?_, ?_, ?_, ?_, ?_, ?_⟩, ?_, ?_, ?_, ?_⟩ <;> simp [run, step, connectTo, socketGone, init, handleStart]
   have h := opensAtEnd_spec _ _ st.ph.sess (flow_opens fl st happ)
   rw [run_append]
   dsimp only
-  have h0 : nC (run (init cfg) [.connectToServer, .socketConnected]).2 = 0 := by simp [run, step, init, handleStart]
+  have h0 : nC (run (init cfg) [.connectToServer, .socketConnected]).2 = 0 := by simp [run, step, connectTo, socketGone, init, handleStart]
   exact ⟨by rw [nC_append, h0, h.1], h.2.2.1, h.2.2.2.1⟩
 
 /-- every flow is applicable for some configuration (non-vacuity), e.g. -/
@@ -327,7 +328,7 @@ example : Flow.tlsSasl2Bind2.applicable { tls := .required, plainOk := true } fa
 elements of the SASL + bind script no `connected` (and no `disconnected`) has been reported and no session is flagged as
 long as `k` is less than the length of the script; the last element reports `connected` exactly once. -/
 theorem connected_once_and_only_when_done_sasl_bind (cfg : Cfg) (script : List Ev)
-    (hc : (run (init cfg) script).1.conn = .connected)
+    (hc : (run (init cfg) script).1.conn = .connected) (hreg : cfg.registerOnConnect = false)
     (hsasl : cfg.useSasl = true) (hplain : cfg.plainOk = true) (htls : cfg.tls ≠ .required) :
     let s0 := (run (run (init cfg) script).1 cutAndReconnect).1
     (∀ k, k < flowSaslBind.length →
@@ -338,7 +339,7 @@ theorem connected_once_and_only_when_done_sasl_bind (cfg : Cfg) (script : List E
   have hred : (run (init cfg) script).1.redirect = false := run_red script (init cfg) rfl
   have hcfg : (run (init cfg) script).1.cfg = cfg := run_cfg script (init cfg)
   have h0 : Ph cfg false .idle false false s0 := by
-    have := ph_after_cut _ hc hred
+    have := ph_after_cut _ hc hred (by rw [hcfg]; exact hreg)
     rwa [hcfg] at this
   have cuts := flowSaslBind_cuts h0 hsasl hplain (Or.inr htls)
   have hpre : ∀ k, nC (run s0 (flowSaslBind.dropLast.take k)).2 = 0 ∧ nD (run s0 (flowSaslBind.dropLast.take k)).2 = 0 ∧
